@@ -1420,6 +1420,29 @@ def inline_fresh_helpers(rel, module):
         if any(not (isinstance(d, ast.Name) and d.id == 'staticmethod') for d in fn.decorator_list):
             continue
         helpers[(cls, name)] = (fn, sh, static)
+    # helpers with several returns can still replace a TAIL call `return helper(..)`: their returns become the caller's
+    tail_helpers = {}
+    for lname, fn in module.funcs.items():
+        if (rel + '::' + lname) in ref or '<locals>' in lname or lname.endswith('__init__') or not isinstance(fn, ast.FunctionDef):
+            continue
+        cls, _, name = lname.rpartition('.')
+        if (cls, name) in helpers:
+            continue
+        if any(isinstance(n, (ast.Yield, ast.YieldFrom, ast.Global, ast.Nonlocal, ast.Lambda, ast.AsyncFunctionDef)) or
+               (isinstance(n, (ast.FunctionDef, ast.ClassDef)) and n is not fn) for n in ast.walk(fn)):
+            continue
+        if fn.args.vararg or fn.args.kwarg or fn.args.kwonlyargs or fn.args.posonlyargs:
+            continue
+        if any(isinstance(c, ast.Call) and ((isinstance(c.func, ast.Attribute) and c.func.attr == name) or
+                                             (isinstance(c.func, ast.Name) and c.func.id == name)) for c in ast.walk(fn)):
+            continue
+        if any(not (isinstance(d, ast.Name) and d.id == 'staticmethod') for d in fn.decorator_list):
+            continue
+        tb = list(fn.body)
+        if tb and isinstance(tb[0], ast.Expr) and isinstance(tb[0].value, ast.Constant) and isinstance(tb[0].value.value, str):
+            tb = tb[1:]
+        if tb:
+            tail_helpers[(cls, name)] = (fn, tb, any(isinstance(d, ast.Name) and d.id == 'staticmethod' for d in fn.decorator_list))
     # S13p: read-only properties that the reference class does not have, with a single-expression body: `x.name` -> body[self := x]
     props = {}
     for lname, fn in module.funcs.items():
@@ -1449,16 +1472,17 @@ def inline_fresh_helpers(rel, module):
         for nm, (fn_, ret, selfname, cls_) in props.items():
             if nm in pdone and cls_ in module.classes and fn_ in module.classes[cls_].body:
                 module.classes[cls_].body.remove(fn_)
-    if not helpers:
+    if not helpers and not tail_helpers:
         return pdone
     done = dict(pdone)
     counter = [0]
 
-    def match(call, caller_cls):
+    def match(call, caller_cls, tail=False):
         f = call.func
-        if isinstance(f, ast.Attribute) and isinstance(f.value, ast.Name) and f.value.id in ('self', caller_cls) and (caller_cls, f.attr) in helpers:
+        table = tail_helpers if tail else helpers
+        if isinstance(f, ast.Attribute) and isinstance(f.value, ast.Name) and f.value.id in ('self', caller_cls) and (caller_cls, f.attr) in table:
             return (caller_cls, f.attr)
-        if isinstance(f, ast.Name) and ('', f.id) in helpers:
+        if isinstance(f, ast.Name) and ('', f.id) in table:
             return ('', f.id)
         return None
 
@@ -1494,7 +1518,10 @@ def inline_fresh_helpers(rel, module):
         else:
             return None
         nested = None
-        if not isinstance(call, ast.Call) or match(call, caller_cls) is None:
+        is_tail = kind == 'return' and isinstance(call, ast.Call) and match(call, caller_cls) is None and match(call, caller_cls, tail=True) is not None
+        if is_tail:
+            pass
+        elif not isinstance(call, ast.Call) or match(call, caller_cls) is None:
             # a helper call nested in the part of the statement that is evaluated once and first
             for h in _once_first_hosts(st):
                 for x in _walk_no_defer(h):
@@ -1511,10 +1538,15 @@ def inline_fresh_helpers(rel, module):
             if nested is None:
                 return None
             call, kind = nested, 'nested'
-        key = match(call, caller_cls)
+        key = match(call, caller_cls, tail=is_tail)
         if key is None:
             return None
-        fn, (body, ret), static = helpers[key]
+        if is_tail:
+            fn, body, static = tail_helpers[key]
+            ret = None
+            kind = 'tail'
+        else:
+            fn, (body, ret), static = helpers[key]
         if kind == 'nested' and ret is None:
             return None
         b = bind(call, fn, static, key[0])
@@ -1553,6 +1585,9 @@ def inline_fresh_helpers(rel, module):
                 out.append(ast.Assign(targets=st.targets, value=new_ret))
         elif kind == 'aug':
             out.append(ast.AugAssign(target=st.target, op=st.op, value=new_ret if new_ret is not None else ast.Constant(value=None)))
+        elif kind == 'tail':
+            if not _terminates(new_body):
+                out.append(ast.Return(value=ast.Constant(value=None)))
         elif kind == 'return':
             out.append(ast.Return(value=new_ret))
         elif kind == 'expr':
@@ -1630,7 +1665,7 @@ def inline_fresh_helpers(rel, module):
 
     for lname, fn in list(module.funcs.items()):
         cls, _, name = lname.rpartition('.')
-        if (cls, name) in helpers or '<locals>' in lname:
+        if (cls, name) in helpers or (cls, name) in tail_helpers or '<locals>' in lname:
             continue
         rec_block(fn.body, fn, cls)
         ast.fix_missing_locations(fn)
@@ -1639,6 +1674,11 @@ def inline_fresh_helpers(rel, module):
         remaining = {n.attr for n in ast.walk(module.tree) if isinstance(n, ast.Attribute)} | \
                     {n.id for n in ast.walk(module.tree) if isinstance(n, ast.Name)}
         for (cls, name), (fn, sh, static) in helpers.items():
+            if name in done and name not in remaining:
+                owner = module.classes.get(cls) if cls else module.tree
+                if owner is not None and fn in owner.body:
+                    owner.body.remove(fn)
+        for (cls, name), (fn, tb, static) in tail_helpers.items():
             if name in done and name not in remaining:
                 owner = module.classes.get(cls) if cls else module.tree
                 if owner is not None and fn in owner.body:
